@@ -40,6 +40,15 @@ Programs ==
          {[tag |-> <<"incl", dep, ks, po, cont, f>>, files |-> InclFault(dep, ks, 1, po, cont, f)] :
             dep \in 1..3, ks \in KindSeqs(1), po \in 0..1, cont \in {0, 1}, f \in (IF Q THEN {"F1200", "F1010"} ELSE Faults)}
          \cup {[tag |-> <<"inclin", k, f>>, files |-> InclInside(k, f)] : k \in Kinds, f \in {"F1200"}}
+    [] Family = "after" ->      \* a faulty line after every construct kind has completed, with and without INCLUDE inside
+         {[tag |-> <<"after", ks, inc, po, cont, f, wh>>, files |-> AfterProg(ks, inc, 0, po, cont, f, wh)] :
+            ks \in KindSeqs(1), inc \in BOOLEAN, po \in 0..1, cont \in 0..1, f \in (IF Q THEN {"F1200"} ELSE {"F1200", "F1010", "W60"}),
+            wh \in {"main", "inc"}}
+         \cup {[tag |-> <<"after2", ks, inc, pre, 0, "F1200", wh>>, files |-> AfterProg(ks, inc, pre, 1, 0, "F1200", wh)] :
+                 ks \in [1..2 -> Kinds], inc \in (IF Q THEN {TRUE} ELSE BOOLEAN), pre \in (IF Q THEN {0} ELSE 0..1),
+                 wh \in (IF Q THEN {"main"} ELSE {"main", "inc"})}
+         \cup (IF Q THEN {} ELSE {[tag |-> <<"after3", ks, TRUE, 1, 1, "F1200", "main">>, files |-> AfterProg(ks, TRUE, 1, 1, 1, "F1200", "main")] :
+                                   ks \in [1..3 -> Kinds]})
     [] Family = "expect" ->     \* all announcements of <= 3 numbers x <= 3 occurring messages
          {[tag |-> <<"expect", A, O, c, nst>>, files |-> ExpectProg(A, O, c, nst)] :
             A \in SeqsLE(NumsA, IF Q THEN 2 ELSE 3) \ {<<>>}, O \in SeqsLE(OccO, IF Q THEN 2 ELSE 3), c \in {TRUE}, nst \in {FALSE}}
